@@ -119,7 +119,13 @@ type memRun struct {
 
 const unkVersion = "zzz-unknown-version"
 
-func keyName(k int) string { return fmt.Sprintf("k%d", k) }
+// keyName: every second key is spelled like a path with a leading slash (lock records are: "/locks/<name>")
+func keyName(k int) string {
+	if k%2 == 1 {
+		return fmt.Sprintf("/locks/k%d", k)
+	}
+	return fmt.Sprintf("k%d", k)
+}
 
 func newMemRun(nk int, D time.Duration) *memRun {
 	return &memRun{st: inmem.New(), nk: nk, vtags: map[string]uint64{unkVersion: 0}, ctags: map[<-chan struct{}]uint64{},
@@ -259,7 +265,7 @@ func (m *memRun) quiesce(need int, gap time.Duration) bool {
 }
 
 func keyIdx(name string) int {
-	n, _ := strconv.Atoi(strings.TrimPrefix(name, "k"))
+	n, _ := strconv.Atoi(strings.TrimPrefix(strings.TrimPrefix(name, "/locks/"), "k"))
 	return n
 }
 
@@ -444,9 +450,13 @@ func (m *memRun) runStep(o Step) bool {
 				n, _ := it.Next()
 				names = append(names, n)
 			}
-			sort.Strings(names)
-			for _, n := range names {
-				ks = append(ks, hx.Nat(keyIdx(n)))
+			idx := make([]int, len(names))
+			for i, n := range names {
+				idx[i] = keyIdx(n)
+			}
+			sort.Ints(idx)
+			for _, n := range idx {
+				ks = append(ks, hx.Nat(n))
 			}
 		}
 		sop = fmt.Sprintf("SMut OListKeys (MKeys %s)", hx.List(ks))
